@@ -5,6 +5,10 @@ package messages
 // Machine-checked contracts (read by /verif/engine; comment-only, compiled only with -tags verif).
 // encoding/json is outside the verified code: after a successful Unmarshal the target struct holds ARBITRARY field
 // values, so every rejection rule below is proved for every possible decoded message.
+// The package keeps no mutable package-level state: activations (two decoders, two requests) cannot influence each
+// other through it.
+//@ stateless package [C12]
+//
 //@ default model int
 //@ default strings smtlib
 //@ ghost var major string
